@@ -437,7 +437,7 @@ func ruleTL(c *Ctx) {
 	c.Rule("TL-LOW", "a length, count or index decoded from the input reaches an allocation, slice bound or index only where it is known to be non-negative", 8)
 	c.Rule("TL-BOUND", "a decoded value used as a slice bound or index is known not to exceed the length or capacity of what it slices", 5)
 	c.Rule("TL-UP", "a decoded length reaches an allocation only where it is bounded by the size of the input actually present", 2)
-	c.Rule("TL-OVF", "a guard that adds to a decoded length is preceded by an upper bound on that length, so the sum cannot wrap", 1)
+	c.Rule("TL-OVF", "a guard that adds to a decoded length is preceded by an upper bound on that length, so the sum cannot wrap", 0)
 	var vnames []string
 	for f := range e.validated {
 		vnames = append(vnames, qualNameShort(f))
